@@ -583,4 +583,53 @@ theorem mpDecode_scale (scale offset a cl : ℚ) (ha : 0 < a) (H : Graph) (llr :
   · intro h; by_contra h'; have := mul_nonneg (le_of_lt ha) (not_lt.mp h'); linarith
   · intro h; exact mul_neg_of_pos_of_neg ha h
 
+/-- two summands that agree except at one index `i0 < n` -/
+theorem sumR_range_except (f g : Nat → ℚ) (n i0 : Nat) (hi : i0 < n) (δ : ℚ)
+    (h0 : g i0 = f i0 + δ) (hne : ∀ i, i < n → i ≠ i0 → g i = f i) :
+    sumR ((List.range n).map g) = sumR ((List.range n).map f) + δ := by
+  induction n with
+  | zero => omega
+  | succ n ih =>
+    rw [List.range_succ, List.map_append, List.map_append]
+    have happ : ∀ (a b : List ℚ), sumR (a ++ b) = sumR a + sumR b := by
+      intro a b; induction a with
+      | nil => simp [sumR]
+      | cons x xs iha => simp only [List.cons_append, sumR, iha]; ring
+    rw [happ, happ]
+    simp only [List.map_cons, List.map_nil, sumR, add_zero]
+    by_cases hin : i0 = n
+    · subst hin
+      have : sumR ((List.range i0).map g) = sumR ((List.range i0).map f) := by
+        congr 1
+        apply List.map_congr_left
+        intro i hi'
+        exact hne i (by have := List.mem_range.mp hi'; omega) (by have := List.mem_range.mp hi'; omega)
+      rw [this, h0]; ring
+    · have := ih (by omega) (fun i hi' hn => hne i (by omega) hn)
+      rw [this, hne n (by omega) (fun e => hin e.symm)]; ring
+
+/-- **the implementation's form of the variable-to-check message**: `marginal − own message` equals
+`channel LLR + sum of the other incoming messages` (what the model computes) on every edge -/
+theorem marginal_minus_own (H : Graph) (llr : List ℚ) (M : Msgs) (c j : Nat) (hc : c < H.length) (hj : j < deg H c) :
+    llr.getD (varAt H c j) 0 + inSum H M (varAt H c j) c j =
+      marginal H llr M (varAt H c j) - msgAt M c j := by
+  unfold marginal
+  have key : inSum H M (varAt H c j) H.length 0 = inSum H M (varAt H c j) c j + msgAt M c j := by
+    unfold inSum
+    refine sumR_range_except _ _ H.length c hc (msgAt M c j) ?_ ?_
+    · -- row c: the two inner sums differ exactly at position j
+      refine sumR_range_except _ _ (deg H c) j hj (msgAt M c j) ?_ ?_
+      · have h1 : ¬ (c = H.length ∧ j = 0) := by omega
+        simp [h1]
+      · intro j' _ hne
+        have h1 : ¬ (c = H.length ∧ j' = 0) := by omega
+        simp [h1, hne]
+    · intro c' hc' hne
+      congr 1
+      apply List.map_congr_left
+      intro j' _
+      have h1 : ¬ (c' = H.length ∧ j' = 0) := by omega
+      simp [h1, hne]
+  rw [key]; ring
+
 end SoftProofs
